@@ -1626,6 +1626,12 @@ where
                         }
                     }
 
+                    // Copy sub-protocol messages outside of a COPY are ignored by the server
+                    // and produce no reply, so don't forward them and wait for one.
+                    'd' | 'c' | 'f' if !server.in_copy_mode() => {
+                        debug!("Ignoring {} outside of copy mode", code);
+                    }
+
                     // CopyData
                     'd' => {
                         self.buffer.put(&message[..]);
